@@ -3,17 +3,15 @@
    reduced alphabet, building into a data object that already holds a program
    (two such initial states) gives the code of the build into an empty object
    relocated by the two table lengths, and that code refers to its own jump
-   entries and instructions only -- except in the listed classes.  vm_compute. *)
+   entries and instructions only -- except for the empty program (C20-K2) and
+   class C05-K2 (not produced by the parser).  vm_compute. *)
 From Coq Require Import List Arith Bool NArith Lia.
 From GV Require Import Base.Result Gen.TokenTypes Gen.Defs Gen.Instr Model.Parser Model.BuilderWL Model.Compile
   Spec.WfCode Spec.Reloc Proofs.C05.Known Proofs.C05.Bounded.
 Import ListNotations.
 
-(* C20-K1: the program compiles to no instruction and the previous program
-   ends in EndExpression: the terminator-elision rule reads across the program
-   boundary, nothing is emitted and the reported entry names an instruction
-   that does not exist (or the next program's first one) *)
-Definition Known_C20_K1 (init : binit) (t : tree) : Prop := empty_after_end init t = true.
+(* (the former class C20-K1 -- a program that compiles to nothing built after a
+   program ending in EndExpression -- was repaired in build.rs, commit b7aaffe) *)
 (* C20-K2: the empty program (no parse node) pushes EndExpression, pushes no
    jump entry and reports entry 0 -- which, in a shared object, is the first
    program's entry *)
@@ -23,7 +21,7 @@ Definition known20_b (init : binit) (nodes : list pnode) (root : nat) : bool :=
   match nodes with
   | [] => true
   | _ => match tree_of nodes root with
-         | Some t => empty_after_end init t || has_empty_body t
+         | Some t => drops_arms t
          | None => false
          end
   end.
@@ -98,7 +96,7 @@ Definition relocates (toks : list token_type) (init : binit) : Prop :=
     exists r0, build nodes empty_init lit_all (build_fuel nodes) root = Ok r0 /\
       ((relocated init (code_of_build r0) (code_of_build r) = true /\ own_code init (code_of_build r) = true)
        \/ Known_C20_K2 nodes
-       \/ exists t, tree_of nodes root = Some t /\ (Known_C20_K1 init t \/ Known_C05_K1 init t)).
+       \/ exists t, tree_of nodes root = Some t /\ Known_C05_K2 t).
 
 Lemma check_r_meaning : forall toks init, check_r toks = true -> In init inits -> relocates toks init.
 Proof.
@@ -111,7 +109,5 @@ Proof.
   - left. apply andb_true_iff in Hc. exact Hc.
   - right. unfold known20_b in Hk. destruct nodes as [|n ns]; [left; reflexivity|].
     right. destruct (tree_of (n :: ns) root) as [t|]; [|discriminate]. exists t. split; [reflexivity|].
-    apply orb_true_iff in Hk. destruct Hk as [Hk|Hk].
-    + left. exact Hk.
-    + right. left. exact Hk.
+    exact Hk.
 Qed.
